@@ -308,6 +308,16 @@ func (a *Adapter) Disarm() (int, int) {
 	return a.nCalls, a.nWrites
 }
 
+// TopicCounters returns the stored message and delete counters of a topic.
+func (a *Adapter) TopicCounters(name string) (seq, del int, ok bool) {
+	a.mu.Lock()
+	defer a.mu.Unlock()
+	if r := a.st.topic(name); r != nil {
+		return r.SeqId, r.DelId, true
+	}
+	return 0, 0, false
+}
+
 // Trace switches call logging on/off and returns the log collected so far.
 func (a *Adapter) Trace(on bool) []Call {
 	a.mu.Lock()
